@@ -231,6 +231,12 @@ func main() {
 }
 
 var probes = []string{
+	// a caught RUN-TIME error (no value attached: the message is caught) whose try expression is one
+	// of several operands: left operand, later object value, interpolation part, native argument
+	"(try (1 + \"a\") catch \"E\") + \"!\"", "{a: 1, b: (try (\"a\" | tonumber) catch \"bad\")}", "\"x\\(try (1 + \"a\") catch \"E\")y\\(1)z\"", "[1, (try ({} | keys | .[0] | ascii_downcase) catch \"E\"), 2]", "(try ([] | implode | error) catch \"E\") as $x | [$x, .]",
+	"[(try (.a.b.c) catch \"E\"), .] | length", "(try (1 / 0) catch \"div\") + \"!\" | length", "[limit(2; (try ([1] | .[\"a\"]) catch \"E\"), 7)]", "{(try (1 | keys) catch \"k\"): (try ({} | .[0]) catch \"v\")}", "[.[]? | (try (. + \"s\") catch \"E\") | . + \"!\"]?",
+	"[(try ltrimstr(1) catch \"E\"), (try (null | implode) catch \"F\"), (try ([] | first) catch \"G\")] | join(\",\")", "(try (\"a\" | error) catch .) + (try (1 | error) catch (. | tostring)) + (try ({} | tonumber) catch \"n\")", "reduce (1, 2) as $i (\"\"; . + (try ($i + \"a\") catch \"E\"))",
+	"(reduce (1,2) as $x (0; . + $x)) * 5", "{a: (reduce (1,2) as $x (0; . + $x)), b: (foreach (1,2) as $x (0; . + $x))}", "\"s\\(reduce (1,2) as $x (0; . + $x))t\\(.)\"", "[(1, 2) | (reduce (3, 4) as $x (.; . + $x)) - .]",
 	// order of nested generators
 	"[(1,2) + (10,20)]", "[(1,2) * (3,4)]", "[{(\"a\",\"b\"): (1,2)}]", "[{a:(1,2), b:(3,4)}]", "[[(1,2),(3,4)]]", "[(1,2) as $x | (3,4) as $y | [$x,$y]]",
 	"def f($a; $b): [$a,$b]; [f(1,2; 3,4)]", "def f(a; b): [a,b]; [f(1,2; 3,4)]", "[\"\\(1,2)-\\(3,4)\"]", "[(1,2) == (1,2)]", "[.[(0,1)]?]", "[.[(0,1):(1,2)]?]",
